@@ -55,6 +55,21 @@ def inputs(ctx):
         # biased towards push bytes so that truncation and nesting are exercised
         bs = [rng.choice([rng.randrange(256), rng.randrange(0x5f, 0x80), 0x5b, 0xfe, 0x0c]) for _ in range(n)]
         add(bs, "random-short")
+    # strings whose LAST two bytes read as a big-endian length L pointing back at a small CBOR map header (0xa1..0xa4), the
+    # shape of solc's metadata trailer -- but with that position inside live code or inside a PUSH immediate: positions
+    # and immediates are defined by the scan from offset 0 only
+    for _ in range(300 if ctx.quick else 4000):
+        n = rng.choice([4, 5, 6, 8, 12, 20, 43, 60, 120])
+        bs = [rng.choice([rng.randrange(256), rng.randrange(0x5f, 0x80), 0x5b, 0x00, 0x56]) for _ in range(n)]
+        p = rng.randrange(0, n - 2)
+        bs[p] = rng.choice([0xa1, 0xa2, 0xa3, 0xa4])
+        if p > 0 and rng.random() < 0.6:
+            bs[p - 1] = rng.choice([0x60, 0x61, 0x7f, 0x6f])     # the header byte is a PUSH immediate
+        L = n - 2 - p
+        bs[-2], bs[-1] = L >> 8, L & 0xff
+        add(bs, "metadata-lookalike")
+    for bs in ([0xa1, 0x5b, 0x00, 0x02], [0x61, 0xa1, 0x5b, 0x00, 0x02]):
+        add(bs, "metadata-lookalike")
     big = [1000, 3000] if ctx.quick else [1000, 3000, 8000, 24576, 24576]
     for n in big:
         add([rng.randrange(256) for _ in range(n)], "random-large")
